@@ -249,6 +249,28 @@ Example C28_segtree_nonvacuous :
   st_range s 0 4 = RInt 1 /\ st_range (st_set s 3 (RInt 100)) 0 4 = RInt 3 /\ st_range (st_set s 3 RNull) 3 3 = RNull.
 Proof. vm_compute. repeat split; reflexivity. Qed.
 
+(* ---- chain decomposition: the greedy chains partition the nodes ---- *)
+(* on every poset from_edges accepts: every node lies on exactly one chain (so per-chain suffixes
+   never count a descendant twice), and consecutive chain elements are parent -> child edges *)
+Theorem C28_chain_partition : forall n edges p,
+  (forall c q, In (c, q) edges -> c < n /\ q < n) ->
+  from_edges n edges = inl p ->
+  NoDup (concat (decompose_chains p)) /\
+  (forall v, In v (concat (decompose_chains p)) <-> v < n) /\
+  (forall ch, In ch (decompose_chains p) -> linked p ch /\ ch <> []).
+Proof.
+  intros n edges p Hr H.
+  destruct (from_edges_wf n edges p Hr H) as [[rk W] [TO [Hn _]]]. rewrite <- Hn.
+  apply (chains_partition p rk W TO).
+Qed.
+
+Example C28_chain_partition_nonvacuous :
+  match from_edges 4 [(3, 1); (3, 2); (1, 0); (2, 0)] with
+  | inl p => decompose_chains p = [[0; 1; 3]; [2]]
+  | inr _ => False
+  end.
+Proof. vm_compute. reflexivity. Qed.
+
 (* ---- per-chain suffix folds (chain encoding roll-ups), all chain lengths, all four monoids ---- *)
 Theorem C28_monoid_laws : forall o,
   (forall a b c, combine o a (combine o b c) = combine o (combine o a b) c) /\
@@ -302,12 +324,6 @@ Definition C28_subsumes_desc_full : Prop :=
   (forall z, In z (descendants (mk_index p en m r) y) <-> In z (spec_desc p y)) /\
   descendant_count (mk_index p en m r) y = length (spec_desc p y).
 
-(* chains partition the nodes *)
-Definition C28_chain_partition_full : Prop :=
-  forall p rk, wf_poset p rk -> topo_ok p ->
-  NoDup (concat (decompose_chains p)) /\
-  forall v, In v (concat (decompose_chains p)) <-> v < pn p.
-
 (* roll-up = fold of the monoid over the brute-force descendant set, every encoding, every monoid
    (proved for nested-set: C28_nested_rollup; open for chain and near-tree) *)
 Definition C28_rollup_full : Prop :=
@@ -333,7 +349,7 @@ Definition C28_lca_full : Prop :=
   forall c, In c (lowest_common_ancestors (mk_index p en m r) x y) <-> In c (spec_lca p x y).
 
 Definition C28_full : Prop :=
-  C28_from_edges_complete_full /\ C28_subsumes_desc_full /\ C28_chain_partition_full /\
+  C28_from_edges_complete_full /\ C28_subsumes_desc_full /\
   C28_rollup_full /\ C28_update_commutes_full /\ C28_lca_full.
 
 Print Assumptions C28_spec_closure.
@@ -345,6 +361,7 @@ Print Assumptions C28_nested_reachable.
 Print Assumptions C28_nested_rollup.
 Print Assumptions C28_nested_update_commutes.
 Print Assumptions C28_segtree.
+Print Assumptions C28_chain_partition.
 Print Assumptions C28_nested_subsumes.
 Print Assumptions C28_nested_desc.
 Print Assumptions C28_fenwick_build.
